@@ -59,9 +59,15 @@ CHECKS = {
  "C17": ("TLC model checking with a Fault action at every callback step (FaultAtomic, Efficiency; CommitEarly negative controls) + replay of all TLC fault behaviours into the code + enumerated fault injection validated by TLC",
          "Every (call, callback) fault position of the bounded model is explored by TLC and replayed into the real explainers; random scenarios get every fault position injected in turn and TLC checks atomicity and the efficiency identity of the continued stream.",
          "single and double faults; `seen` after a failed call left open", "§4 C17"),
+ "C18": ("TLC behaviours replayed with the RNG tape in script mode (the run must be a function of stream and tape: every choice requested from the global generators with the specified kind/range, none left unconsumed, state equal to the specification's) + TLC trace validation of draw clauses + same-process and two-fresh-process replays compared bit for bit",
+         "In the specification every nondeterministic choice is an explicit draw action; replaying TLC behaviours with all draws scripted shows the implementation takes exactly those choices from Python's/NumPy's global generators; recorded runs are validated by TLC (feature order = logged permutation draw, background rows and replaced slots = logged uniform draws); the literal experiment runs 59 explainer x storage x imputer configurations in separate interpreter processes (one with decoy objects, junk allocations and a delay before seeding).",
+         "same interpreter configuration (PYTHONHASHSEED fixed); river trees reproducible given their seed", "§4 C18"),
  "C19": ("TLC model checking of TreeStore.tla (reservoir bookkeeping under an unrestricted tree environment; LazyPurge negative control) + TLC trace validation of every update of the real TreeStorage on drifting streams (leaf set, routed leaf, reservoirs before/after) and of TreeImputer calls",
          "ReservoirKeysAreLeaves, ReservoirBounded, ContentsObserved, NewestInRoutedLeaf hold in the specification whatever river's trees do; every recorded update must be the specification's step for the logged leaf set (TLC infers the slot), including a pinned history on which stale reservoirs were observed; TreeImputer model inputs are checked against the routed leaf's reservoir contents.",
          "river's trees are environment; leaf ids are the library's path strings, their number cross-checked by an independent traversal", "§4 C19"),
+ "C20": ("TLC trace validation (Trace_C20.tla) of float Welford / exponential-smoothing results on offset-ill-conditioned short streams: exact values derived by the shift lemmas (TLC invariants ShiftMean/ShiftVar/ShiftES of MC_Trackers) and the property's bounds evaluated in scaled integer arithmetic; textbook-variance negative control; float explainer runs with losses 2^30+delta validated exactly in GF(p)",
+         "Claimed at reduced scope: for streams s*(2^e+delta), |delta|<=6, n<=32, kappa 2^27..2^30, five orderings, alpha in {1/2,1/4,1/8}, TLC checks |mean_f-mean| <= 8 n u max|v|, |var_f-var| <= 8 n u kappa var, |es_f-es| <= 8 u max|v|/alpha and finiteness on the re-represented double results of the real trackers; the shipped code stays below 1 unit, the textbook formula is rejected.",
+         "the error growth over 10^4..10^6 values and magnitudes outside exactly representable families are NOT evaluated (TLC has no floats, 32-bit integers); C = 8", "§4 C20 / Appendix C"),
 }
 
 NOT_YET = "check not built yet in this session (planned: see DESIGN.md section 4)"
